@@ -107,6 +107,89 @@ type Type struct {
 	PassesTrail []string     `json:",omitempty"`
 }
 
+// CheckWellFormed tells whether the type, and every type nested in it, carries
+// the definition its kind announces. Types written by hand (in compiler passes
+// configuration, for example) or produced from unusual inputs may not.
+func (t Type) CheckWellFormed() error {
+	missing := func(what string) error {
+		return fmt.Errorf("type of kind '%s' has no %s definition", t.Kind, what)
+	}
+
+	switch t.Kind {
+	case KindDisjunction:
+		if t.Disjunction == nil {
+			return missing("disjunction")
+		}
+		for _, branch := range t.Disjunction.Branches {
+			if err := branch.CheckWellFormed(); err != nil {
+				return err
+			}
+		}
+	case KindRef:
+		if t.Ref == nil {
+			return missing("ref")
+		}
+	case KindConstantRef:
+		if t.ConstantReference == nil {
+			return missing("constant reference")
+		}
+	case KindStruct:
+		if t.Struct == nil {
+			return missing("struct")
+		}
+		for _, field := range t.Struct.Fields {
+			if err := field.Type.CheckWellFormed(); err != nil {
+				return fmt.Errorf("field '%s': %w", field.Name, err)
+			}
+		}
+	case KindEnum:
+		if t.Enum == nil {
+			return missing("enum")
+		}
+		if len(t.Enum.Values) == 0 {
+			return fmt.Errorf("enum has no values")
+		}
+	case KindMap:
+		if t.Map == nil {
+			return missing("map")
+		}
+		if err := t.Map.IndexType.CheckWellFormed(); err != nil {
+			return err
+		}
+		if err := t.Map.ValueType.CheckWellFormed(); err != nil {
+			return err
+		}
+	case KindArray:
+		if t.Array == nil {
+			return missing("array")
+		}
+		if err := t.Array.ValueType.CheckWellFormed(); err != nil {
+			return err
+		}
+	case KindScalar:
+		if t.Scalar == nil {
+			return missing("scalar")
+		}
+	case KindIntersection:
+		if t.Intersection == nil {
+			return missing("intersection")
+		}
+		for _, branch := range t.Intersection.Branches {
+			if err := branch.CheckWellFormed(); err != nil {
+				return err
+			}
+		}
+	case KindComposableSlot:
+		if t.ComposableSlot == nil {
+			return missing("composable slot")
+		}
+	default:
+		return fmt.Errorf("unknown kind '%s'", t.Kind)
+	}
+
+	return nil
+}
+
 func (t *Type) AcceptsValue(value any) bool {
 	if t.Disjunction != nil {
 		return t.Disjunction.AcceptsValue(value)
